@@ -139,6 +139,9 @@ func spareI(xs []int) []interface{} {
 }
 
 func c04NewHeap(fam string, init []c04InitObj) (*c04Heap, error) {
+	if fam == "I" {
+		c04Poison()
+	}
 	h := &c04Heap{fam: fam, oids: map[uintptr]int{}}
 	for _, o := range init {
 		switch o.K {
@@ -550,6 +553,27 @@ func normCall(c *c04Call) {
 }
 
 // run executes a whole program from a fresh heap, writing one line per step (d = 0 for the initial heap).
+// calls that fail: interface{} collections may hold unhashable elements (a slice), on which the map-based operations panic.  A caller
+// that recovers must find the library as it was: whatever such a call used internally must not leak into the next call.  Run (and
+// recovered) in front of every program of the interface{} family.
+func c04Poison() {
+	bad := []interface{}{3, 1, []int{1}, 2, []int{2}}
+	try := func(f func()) {
+		defer func() { recover() }()
+		f()
+	}
+	mk := func() *fpgo.StreamForInterfaceDef {
+		return fpgo.StreamForInterface.FromArray(append([]interface{}{}, bad...))
+	}
+	try(func() { mk().Distinct() })
+	try(func() { mk().Intersection(mk()) })
+	try(func() { mk().Minus(mk()) })
+	try(func() { mk().RemoveItem(3, []int{1}) })
+	try(func() { mk().Contains([]int{1}) })
+	try(func() { mk().IsSubset(mk()) })
+	try(func() { fpgo.SetForInterfaceFromArray(bad) })
+}
+
 func c04RunProgram(w *ndWriter, p *c04Program) error {
 	if len(p.Prog) == 0 {
 		return nil
